@@ -26,12 +26,12 @@ ASSUMPTIONS = ["following the server's smaller block size in later Block1 reques
                "a non-block answer in the middle of a Block2 transfer may be accepted as the complete representation"]
 EXPECTED_PROBES = ["block1_multi", "block2_multi", "szx_reduced_block1", "szx_reduced_block2", "misbehave_b1_wrong_num",
                    "misbehave_b1_more_on_final", "misbehave_b2_short", "misbehave_b2_skip", "misbehave_b2_etag_change",
-                   "misbehave_b2_etag_presence_change", "block1_acked_without_more_bit", "block1_transfer_rejected_midway", "unfragmented_request_refused_with_size_hint", "retransmitted_block", "unfragmented_1124", "separate_response", "empty_ack_lost_response_delivered"]
+                   "misbehave_b2_etag_presence_change", "block1_acked_without_more_bit", "block1_transfer_rejected_midway", "unfragmented_request_refused_with_size_hint", "retransmitted_block", "unfragmented_1124", "separate_response", "empty_ack_lost_response_delivered", "error_response_mid_transfer", "empty_final_block"]
 
 LENGTHS = [0, 1, 15, 16, 17, 31, 32, 33, 63, 64, 65, 127, 128, 129, 511, 512, 513, 1023, 1024, 1025, 1124, 1125,
            2047, 2048, 2049, 3000, 5000]
 MISBEHAVE = ["b1_wrong_num", "b1_more_on_final", "b1_231_on_final", "b2_short", "b2_skip", "b2_etag_change",
-             "b2_first_num_wrong", "b2_nonblock_mid", "b2_etag_dropped", "b2_etag_appears"]
+             "b2_first_num_wrong", "b2_nonblock_mid", "b2_etag_dropped", "b2_etag_appears", "b2_error_mid"]
 METHODS = {"GET": rc.GET, "PUT": rc.PUT, "POST": rc.POST, "FETCH": rc.FETCH}
 
 
@@ -79,6 +79,8 @@ def gen_transfer(r, i):
     elif r.chance(0.08):
         tr["s1_hint"] = True
     if r.chance(0.2):
+        tr["b2_stream"] = True  # (a streaming server: see RefServer7959.render)
+    if r.chance(0.2):
         # the server (a proxy, a slow back end) answers some of the block requests with an empty ACK and a separate
         # response; the empty ACK may get lost while the response gets through
         tr["sep"] = {"at": sorted(set(r.randrange(0, 6) for _ in range(r.randint(1, 3)))), "delay": r.choice([0.0, 0.05, 0.5, 3.0]),
@@ -123,6 +125,11 @@ def systematic(tier):
                     out.append({"transfers": [{"id": 0, "method": method, "qlen": ql, "rlen": rl, "s1": 2, "s1_reduce": None,
                                                "s2": 2, "s2_reduce": None, "cexp": 6, "etag": True, "misbehave": None, "at": 0, "t": 0.0,
                                                "sep": {"at": at, "delay": 0.05, "con": con, "lose_ack": lose}}], "net": {}})
+    for ln in (16, 32, 48, 1024, 2048, 3072, 17, 0):
+        for s2, c in ((0, 6), (6, 6), (2, 0), (6, 2)):
+            out.append({"transfers": [{"id": 0, "method": "GET" if ln % 32 else "POST", "qlen": 0, "rlen": ln, "s1": 6, "s1_reduce": None,
+                                       "s2": s2, "s2_reduce": None, "cexp": c, "etag": bool(ln % 48), "misbehave": None, "at": 0, "t": 0.0,
+                                       "b2_stream": True}], "net": {}})
     for mb in MISBEHAVE:
         for at in (0, 1, 2):
             out.append({"transfers": [{"id": 0, "method": "POST", "qlen": 200, "rlen": 200, "s1": 1, "s1_reduce": None,
@@ -349,12 +356,13 @@ class RefServer7959(ScriptedEndpoint):
         start = num * size_of(cszx)
         opts = []
         etag = b"E%05d" % rid
-        if b2 is None and n <= size:
+        stream = bool(spec.get("b2_stream"))
+        if b2 is None and (n < size if stream else n <= size):
             # fits: no Block2 needed
             if spec["etag"]:
                 opts.append((rc.ETAG, etag))
             return {"code": code, "options": opts, "payload": full}
-        if start >= n and not (n == 0 and start == 0):
+        if (start > n if stream else start >= n) and not (n == 0 and start == 0):
             return {"code": rc.BAD_REQUEST, "options": [], "payload": b"beyond"}
         st["b2_count"] += 1
         snum = start // size
@@ -391,8 +399,22 @@ class RefServer7959(ScriptedEndpoint):
             st["nonblock"] = b"NONBLOCK-COMPLETE-%05d" % rid
             st["misbehaved"] = True
             return {"code": code, "options": [], "payload": st["nonblock"]}
+        if mb == "b2_error_mid" and k == max(1, spec["at"]) and start > 0:
+            # the server fails in the middle of the transfer (the resource is gone, the back end is unavailable) and says
+            # so with an error response that, like its other responses to block requests, carries a Block2 option
+            st["errmid"] = b"ERROR-MID-TRANSFER-%05d" % rid
+            st["errmid_code"] = rc.code(5, 3) if rid % 2 else rc.NOT_FOUND
+            st["misbehaved"] = True
+            self.sim.probe("error_response_mid_transfer")
+            return {"code": st["errmid_code"], "options": [(rc.BLOCK2, rc.block_bytes(snum, False, szx))], "payload": st["errmid"]}
         chunk = full[start:start + size]
         more = start + size < n
+        if stream and n > 0 and start + size == n:
+            # a server that produces its content incrementally learns that the body is over only when it looks for the
+            # next block: a body ending exactly on a block boundary is followed by an empty final block (legal: a
+            # final block carries 0..size bytes)
+            more = True
+            self.sim.probe("empty_final_block")
         if more:
             if k >= 1:
                 self.sim.probe("block2_multi")
@@ -438,6 +460,11 @@ def execute(sim, scn):
     sim.run()
 
     wire = sim.net.wire
+
+    def sep_lost(st):
+        """a separate response of which no copy ever arrived"""
+        return any(not any(d[2] for e in wire if e["data"] == raw and e["src"] == server.addr for d in e["deliveries"])
+                   for raw in st.get("sep_sent", []))
     for tr in scn["transfers"]:
         tid = tr["id"]
         rec = tracker.results.get(tid)
@@ -510,7 +537,9 @@ def execute(sim, scn):
             if st.get("hinted") and rec["done"] and rec["outcome"] == "response" and rec["response"].code.is_successful() \
                     and st["bodies"] and st["bodies"][-1] == payload:
                 continue  # the client took the hint and repeated the request in blocks: fine
-            if not rec["done"]:
+            if not rec["done"] and sep_lost(st):
+                sim.probe("separate_response_never_arrived")
+            elif not rec["done"]:
                 sim.violation("C05/transfer-never-completed", ident)
             elif rec["outcome"] == "response" and rec["response"].code.is_successful():
                 sim.violation("C05/rejected-transfer-reported-as-success", dict(ident, code=str(rec["response"].code)))
@@ -529,8 +558,7 @@ def execute(sim, scn):
             sim.nontrivial = True
         # ---- Block2 requests ask for NUM x size = bytes received so far: checked through the server's view
         # (RefServer answers 4.00 'beyond'/a wrong slice otherwise and the body comparison below fails)
-        if not rec["done"] and any(not any(d[2] for e in wire if e["data"] == raw and e["src"] == server.addr for d in e["deliveries"])
-                                   for raw in st.get("sep_sent", [])):
+        if not rec["done"] and sep_lost(st):
             # a separate response of which no copy ever arrived (the server gave up, or it was not confirmable), after
             # the request had been acknowledged: nobody can tell the client; narrow relaxation, counted
             sim.probe("separate_response_never_arrived")
@@ -560,6 +588,8 @@ def execute(sim, scn):
             # complete representation, never a truncated / duplicated / mixed one
             if nonblock is not None and got == nonblock:
                 continue
+            if st.get("errmid") is not None and got == st["errmid"] and int(resp.code) == st["errmid_code"]:
+                continue  # the server's error response, as such, is the result
             kind = "truncated" if any(full.startswith(got) and got != full for full in reprs) else "mixed-or-duplicated"
             if got in reprs:
                 kind = "accepted-silently"
